@@ -103,13 +103,14 @@ class Ptr:
 
 class Seq:
     """Immutable sequence snapshot: element k is get(k), 0 <= k < length."""
-    __slots__ = ('get', 'length', 'kind', 'items')
+    __slots__ = ('get', 'length', 'kind', 'items', 'win')
 
-    def __init__(self, get, length, kind, items=None):
+    def __init__(self, get, length, kind, items=None, win=None):
         self.get = get
         self.length = length
         self.kind = kind
         self.items = items   # concrete python list when known
+        self.win = win       # (array term, lo, hi) when the sequence is a contiguous window
 
 
 class TView:
@@ -230,6 +231,9 @@ def vlit(x):
 
 
 def zint(x):
+    if isinstance(x, Opt):
+        # only reached from specification terms, under a guard that excludes None
+        x = x.v
     return z3.IntVal(x) if is_cint(x) else (z3.If(x, 1, 0) if is_bool(x) and is_z3(x) else
                                             (z3.IntVal(int(x)) if isinstance(x, bool) else x))
 
